@@ -79,6 +79,11 @@ theorem turn_effect (fuel : Nat) (p : Proc) (k : List Bytes) :
     · rename_i t rest hp
       split
       · simp
+      · have := ih { p with pending := rest }
+        simpa using this
+    · rename_i t rest hp
+      split
+      · simp
       · split
         · rename_i k' hk
           right; right
